@@ -14,7 +14,7 @@ def sh(c, **kw):
 args = sys.argv[1:]
 nosuite = '--nosuite' in args
 dirs = [a for a in args if a != '--nosuite']
-patches = [p for d in dirs for p in sorted(glob.glob(os.path.join(d, '*.diff')))]
+patches = [os.path.abspath(p) for d in dirs for p in sorted(glob.glob(os.path.join(d, '*.diff')))]
 
 
 def one(patch):
